@@ -524,7 +524,7 @@ pub fn run(ctx: &Ctx, replay: Option<&serde_json::Value>) {
     ctx.extra("features", json!(feats.len()));
     ctx.run_list("declared", &feats, |c, r| test_declared(ctx, c, r));
     ctx.run_list("refusal", &feats, |c, r| test_refusal(ctx, c, r));
-    let cases = ctx.tier.pick(6000, 1_500_000);
+    let cases = ctx.tier.pick(100_000, 1_500_000);
     let cfg = GenCfg {
         max_facts: 2,
         max_rules: 2,
